@@ -64,6 +64,11 @@ func c05CheckSenderPair(la, pn PacketNumber, buf *[]PacketNumber, fail *c05PNFai
 		}
 		return 0
 	}
+	// RFC 9000 17.1: the encoding must be able to represent more than twice the distance to the
+	// largest acknowledged packet (4 bytes are the maximum, so the rule can bind only below 2^31)
+	if unacked := pn - la; unacked < 1<<31 && PacketNumber(1)<<(8*uint(l)) <= 2*unacked && fail.sig == "" {
+		*fail = c05PNFail{fmt.Sprintf("C05|pn|length-below-rfc9000-17.1|len=%d", l), fmt.Sprintf("pn=%d largestAcked=%d: %d byte(s) chosen, the distance is %d", pn, la, l, unacked)}
+	}
 	t := c05Trunc(pn, l)
 	*buf = c05Receivers(*buf, la, pn, l)
 	for _, r := range *buf {
